@@ -942,6 +942,13 @@ Definition k5_event (I : inst) (d : dispatch) (w : worker) (u : dtask) : bool :=
   | None => false
   end.
 
+(** the same under some other assignment of the same counts: used when NO assignment avoids the inversion
+    of [u] (K3 fails), i.e. the counts themselves are at fault *)
+Definition k4_any (I : inst) (bs : list batch) (s : sol) (u : dtask) : bool :=
+  existsb (fun d' =>
+    existsb (fun x => (t_id (snd x) =? t_id u) && k4_event I d' (snd (fst x)) (snd x)) (inversions I d'))
+    (alt_dispatches I bs s).
+
 Inductive verdict := VK1 | VK2 | VK3 | VK4 | VK5 | VUnclassified.
 
 (** classification of one inversion witness (t on w, waiting u): the event is (w, u); every class with
@@ -957,5 +964,5 @@ Definition classify (I : inst) (bs : list batch) (s : sol) (d : dispatch) (x : d
   else if k2_violated I bs s w h then VK2
   else if some_low (fun l c => k4_violated I bs s l c h) then VK4
   else if k3_mapping I bs s u then VK3
-  else if k4_event I d w u then VK4
+  else if k4_event I d w u || k4_any I bs s u then VK4
   else VUnclassified.
